@@ -1,9 +1,14 @@
 """C06 — buffered descriptor / TCP connection preserves the byte stream (BufferedFd, TcpConnection)."""
 import vlib
 ID = 'C06'
-LEAN_MODULES = ['TboxModel.C06.Props', 'TboxModel.C06.NetProps', 'TboxModel.C06.NetPropsCl', 'TboxModel.C06.KernelProps']
+LEAN_MODULES = ['TboxModel.C06.Props', 'TboxModel.C06.NetProps', 'TboxModel.C06.NetPropsCl', 'TboxModel.C06.NetPropsRc', 'TboxModel.C06.KernelProps']
 EXE = 'c06'
 THEOREMS = ['Tbox.C06.C06_send_stream', 'Tbox.C06.C06_send_ghost', 'Tbox.C06.C06_send_drop_only_on_error',
+            'Tbox.C06.C06_send_refused_only_on_lasting_error', 'Tbox.C06.C06_send_transient_error_queues',
+            'Tbox.C06.C06_send_drop_counterexample_unpatched', 'Tbox.C06.C06_send_progress_any_answers',
+            'Tbox.C06.C06_write_error_keeps_queue', 'Tbox.C06.C06_send_progress_counterexample_disarm',
+            'Tbox.C06.C06_write_sites_separate', 'Tbox.C06.C06_send_eventually_drains', 'Tbox.C06.C06_read_eintr_harmless',
+            'Tbox.C06.C06_read_eintr_counterexample_unpatched', 'Tbox.C06.C06_spill_keeps_order', 'Tbox.C06.C06_spill_bound',
             'Tbox.C06.C06_send_progress', 'Tbox.C06.C06_send_drains', 'Tbox.C06.C06_send_complete_only_when_empty',
             'Tbox.C06.C06_send_progress_counterexample_unpatched', 'Tbox.C06.C06_recv_stream',
             'Tbox.C06.C06_recv_presentation', 'Tbox.C06.C06_close_after_data',
@@ -16,6 +21,10 @@ THEOREMS = ['Tbox.C06.C06_send_stream', 'Tbox.C06.C06_send_ghost', 'Tbox.C06.C06
             'Tbox.C06.Net.C06_net_stop_cancels',
             'Tbox.C06.Net.C06_net_client_conn_order', 'Tbox.C06.Net.C06_net_client_quiet', 'Tbox.C06.Net.C06_net_client_view',
             'Tbox.C06.Net.C06_net_connector_idle_unless_connecting',
+            'Tbox.C06.Net.C06_net_client_no_stale_events', 'Tbox.C06.Net.C06_net_client_no_stale_after_reconnect',
+            'Tbox.C06.Net.C06_net_connect_fresh_link', 'Tbox.C06.Net.C06_net_default_delay', 'Tbox.C06.Net.C06_net_retry_delay',
+            'Tbox.C06.Net.C06_net_retry_on_time', 'Tbox.C06.Net.C06_net_adv_idle', 'Tbox.C06.Net.C06_net_stale_write_event',
+            'Tbox.C06.Net.C06_net_delay_func_stops', 'Tbox.C06.Net.C06_net_delay_func_stops_counterexample',
             'Tbox.C06.Kern.C06_kernel_stream', 'Tbox.C06.Kern.C06_active_close_delivers_partial', 'Tbox.C06.Kern.C06_kernel_over_model',
             'Tbox.C06.Kern.C06_peer_reads_to_eof', 'Tbox.C06.Kern.C06_abortive_close_resets', 'Tbox.C06.Kern.C06_unix_close_keeps_queue',
             'Tbox.C06.Kern.C06_linger_close_counterexample', 'Tbox.C06.Kern.C06_close_unread_inbound_counterexample',
@@ -29,11 +38,14 @@ FLAVOUR = 'asan'
 LIBS = ['-ldl']
 BATCH = 100
 BATCH_TIMEOUT = 300
-TRUSTED = ['model lean/TboxModel/C06/Model.lean is hand-written from buffered_fd.cpp + tcp_connection.cpp (with patches/C06-01..03); tied by '
+TRUSTED = ['model lean/TboxModel/C06/Model.lean is hand-written from buffered_fd.cpp + tcp_connection.cpp (with patches/C06-01..03, 09, 10); tied by '
            'differential runs of the real classes on a socket pair and the real epoll loop',
            'send_buff_/recv_buff_ are taken as FIFO byte queues (that is C07_refines_fifo)',
            'harness interposes write/readv/epoll_wait for the descriptor under test (extern "C" definitions forwarding with '
-           'dlsym(RTLD_NEXT)): the op file dictates the kernel answers and which readiness (read, write, both) a pass reports',
+           'dlsym(RTLD_NEXT)): the op file dictates the kernel answers and which readiness (read, write, both) a pass reports; a write(2) made while a send() call of '
+           'the object under test is on the stack is the write of the send site, every other one the write of the write-ready callback (send() calls no user callback)',
+           'how one readv is split between the writable space of the receive buffer and the 1 KiB spill buffer depends on the capacity, which is not in the model: the model '
+           'proves the split harmless for every writable size (C06_spill_keeps_order) and the harness counts the splits that occurred (evidence: spill_buffer_bytes_in_real_reads)',
            'plumbing model lean/TboxModel/C06/NetModel.lean (TcpServer table, TcpClient, TcpConnector, accept loop; with patches/C06-04/05) is hand-written; '
            'a TcpConnection is used there through what Props.lean proves about it; the loop is modelled as passes over a ready list in epoll order '
            '(level-triggered re-queue, read before write per descriptor, deferred tasks at the end of a pass, writes of one pass coalesced); tied by '
@@ -57,23 +69,30 @@ ASSUMPTIONS = ['plumbing cases: at most one connector retries or reconnects at a
                'with SO_LINGER{on,0} (AF_INET) or unread inbound data it discards what has not reached the peer and the peer reads ECONNRESET',
                'C06_active_close_delivers_partial assumes no inbound data is unread at the close (C06_close_unread_inbound_counterexample, replayed on the real code by the `tcp … opu` line; '
                'the same scenario judged against the statement itself, `tcp … opuS`, is the recorded finding active-close-unread-inbound)',
-               'errno values other than EAGAIN are one oracle answer each (`er`: EPIPE for write, ECONNRESET for readv); the code only distinguishes EAGAIN']
+               'write(2) errno values are oracle inputs (`e<n>`: EINTR 4, EIO 5, ENOMEM 12, ENOSPC 28, EPIPE 32, ECONNRESET 104, ENOBUFS 105; `ea` EAGAIN), each answer addressed '
+               'to the write in send() (`s:`), to the write in the write-ready callback (`c:`) or to whichever comes first; readv: `ea` EAGAIN, `ei` EINTR, `er` ECONNRESET '
+               '(other lasting readv errors are not distinguished by the code)',
+               'the model is the code with patches/C06-09 (send() keeps the payload on a transient write error, returns false on a lasting one) and C06-10 (EINTR from readv is not a '
+               'read error) applied: until the lead has applied them the check reports the as-found behaviour on /repo as violations (replays corpus/C06/18.., 19..)']
 RULE = ('op sequences on one BufferedFd or TcpConnection generated by props/C06/plugin.py: sends of 0 B..256 KiB (thorough: 4 MiB) before '
-        'enable / while running / after disable, scripted kernel answers (partial accept, a0, EAGAIN, error; read chunks, boundary fills, '
-        'EAGAIN, error), thresholds 0..N, callbacks consuming 0/some/all and calling send/enable/disable/disconnect, peer close at any point, '
+        'enable / while running / after disable, scripted kernel answers (partial accept, a0, EAGAIN, EINTR, ENOBUFS, ENOMEM, EPIPE, ECONNRESET, EIO, ENOSPC, '
+        'each for the write in send(), for the write in the write-ready callback or for either; read chunks, fills ending 0/1/2/1023/1024/1025 bytes behind the '
+        'writable space of the receive buffer, EAGAIN, EINTR, error), thresholds 0..N, callbacks consuming 0/some/all and calling send/enable/disable/disconnect, peer close at any point, '
         'peer-application reads of 1 B..everything at any point, shutdown(SHUT_WR), active close with bytes still in the kernel queue / with unread inbound data; '
         'AF_INET loopback runs of 2-4 MiB (thorough 8-12 MiB) with sends of 1 B..3 MiB closed actively at send-complete; plumbing op lists with fault schedules on '
         'socket/connect/accept/SO_ERROR; '
         'non-trivial = the model run takes at least two distinct fault/boundary branches (partial or EAGAIN write, queued send, enable with '
-        'queued bytes, leftover re-presentation, multi-chunk read, below-threshold read, EOF, write stall, drop); distinct = distinct op text')
+        'queued bytes, leftover re-presentation, multi-chunk read, below-threshold read, EOF, write stall, transient / lasting write error at either site, EINTR read); distinct = distinct op text')
 
 INTERESTING = {'close-with-queue', 'close-unread', 'shut-with-queue', 'pread-left', 'pread-end-eof', 'pread-end-reset', 'tcp-2MiB', 'net-connect-refused', 'net-accept-aborted',
-               'send-partial', 'send-eagain', 'send-before-enable', 'send-append', 'send-error-drop', 'enable-with-queued',
+               'net-stop-while-established', 'net-backlog-reset', 'net-delayfunc-stop', 'net-delayfunc-cleanup', 'net-reconnect-twice-in-op', 'net-kndelay-armed', 'net-retry-zero-delay', 'net-kndelay-set-in-delay', 'net-stale-after-newer',
+               'send-partial', 'send-eagain', 'send-before-enable', 'send-append', 'send-transient-queued', 'send-eintr', 'send-error-refused', 'enable-with-queued',
+               'send-passes-cb-answer', 'wr-passes-send-answer', 'wr-error-transient', 'wr-error-lasting', 'wr-eintr', 'wr-eagain', 'rd-eintr', 'rd-eintr-midstream',
                'rd-with-leftover', 'rd-multi-chunk', 'rd-below-threshold', 'rd-eof', 'rd-fault', 'rd-stopped-early',
                'flush-at-close', 'rw-both', 'rw-write-skipped', 'rw-armed-in-dispatch', 'e2e-threshold', 'e2e-sndbuf',
                'net-svstop-live', 'net-svcleanup-live', 'net-stale-token', 'net-svdisc', 'net-retry-timer', 'net-sv-disconnected',
                'net-cl-disconnected', 'net-stop-in-callback', 'net-cleanup-in-callback', 'net-shutdown', 'net-send-more', 'net-socket-fail', 'net-accept-fail', 'net-late-fail', 'net-reconnect', 'net-connect-failed', 'net-clstop-2', 'net-clstop-3', 'net-knstop-2', 'net-knstop-3',
-               'wr-partial', 'wr-stalled', 'wr-drained', 'consume-some', 'consume-none', 'discard', 'disconnected', 'drop'}
+               'wr-partial', 'wr-stalled', 'wr-drained', 'consume-some', 'consume-none', 'discard', 'disconnected'}
 FAULTS = {}
 
 
@@ -113,17 +132,31 @@ def script(rng, tier, conn, allow_none=True):
     return ','.join(acts)
 
 
+WERRNO = [4, 4, 4, 105, 12, 32, 104, 5, 28]     # EINTR, ENOBUFS, ENOMEM (transient); EPIPE, ECONNRESET, EIO, ENOSPC (lasting)
+
+
+def wsite(rng, tok):
+    """address the answer to the write in send() / in the write-ready callback / to whichever comes first"""
+    r = rng.random()
+    if r < 0.25: _count('w-site-send'); return 's:' + tok
+    if r < 0.5: _count('w-site-cb'); return 'c:' + tok
+    return tok
+
+
 def wanswers(rng, n):
     out = []
     for _ in range(rng.choice([1, 1, 2, 3, 5])):
         q = rng.random()
-        if q < 0.55:
+        if q < 0.5:
             k = rng.choice([0, 1, 1, 2, 3, 7, max(n - 1, 0), n, n + 1, n // 2, 1000, 4096, 2147483647, 2147483648, 4294967296, 9223372036854775807, 18446744073709551615])
-            out.append('a%d' % k); _count('w-partial' if k < n else 'w-accept')
-        elif q < 0.9:
-            out.append('ea'); _count('w-eagain')
+            out.append(wsite(rng, 'a%d' % k)); _count('w-partial' if k < n else 'w-accept')
+        elif q < 0.72:
+            out.append(wsite(rng, 'ea')); _count('w-eagain')
+        elif q < 0.93:
+            e = rng.choice(WERRNO)
+            out.append(wsite(rng, 'e%d' % e)); _count('w-eintr' if e == 4 else 'w-transient' if e in (12, 105) else 'w-error')
         else:
-            out.append('er'); _count('w-error')
+            out.append(wsite(rng, 'er')); _count('w-error')
     return out
 
 
@@ -134,9 +167,11 @@ def ranswers(rng):
         if q < 0.6:
             out.append('c%d' % rng.choice([1, 1, 1, 2, 3, 7, 64, 1023, 1024])); _count('r-chunk')
         elif q < 0.75:
-            out.append('f%d' % rng.choice([0, 0, 1, 2])); _count('r-boundary')
-        elif q < 0.93:
+            out.append('f%d' % rng.choice([0, 0, 1, 2, 1023, 1024, 1024, 1025])); _count('r-boundary')
+        elif q < 0.86:
             out.append('ea'); _count('r-eagain')
+        elif q < 0.94:
+            out.append('ei'); _count('r-eintr')
         else:
             out.append('er'); _count('r-error')
     return out
@@ -271,6 +306,71 @@ def gen_rw(rng, tier):
     return ops + ['peof', 'rw', 'rw'] + flush(rng)
 
 
+def gen_wfaults(rng, tier):
+    """fault schedules on the two write sites, scheduled separately: short count / EAGAIN / EINTR / ENOBUFS / ENOMEM / EPIPE at a
+    chosen call index of the write in send() and of the write in the write-ready callback, combinations (short count, then a
+    lasting error, then recovery), sends between the passes, a write-error callback that sends / disables / re-enables"""
+    conn = rng.random() < 0.3
+    ops = ['cinit', 'dcb -'] if conn else ['init 3', 'wecb ' + rng.choice(['-', '-', 'none', 's:ee', 'dis,en', 'dis'])]
+    ops += ['scb ' + rng.choice(['-', '-', 's:aa'])] + ([] if conn else ['en'])
+    last_n = 8
+    for _ in range(rng.choice([2, 3, 5])):
+        sched = []
+        for site in 'sc':
+            for _ in range(rng.choice([0, 1, 1, 2, 3])):
+                q = rng.random()
+                tok = ('a%d' % rng.choice([0, 1, 2, 3, last_n // 2, max(last_n - 1, 0)]) if q < 0.3 else 'ea' if q < 0.45
+                       else 'e%d' % rng.choice(WERRNO))
+                sched.append('%s:%s' % (site, tok)); _count('w-site-' + ('send' if site == 's' else 'cb'))
+        rng.shuffle(sched)
+        if sched: ops.append('kw ' + ' '.join(sched))
+        for _ in range(rng.choice([1, 2, 3])):
+            d, last_n = payload(rng, tier, small=rng.random() < 0.7)
+            ops.append('send ' + d)
+            for _ in range(rng.choice([0, 1, 2])): ops.append(rng.choice(['wr', 'wr', 'rw', pread(rng)]))
+    return ops + flush(rng)
+
+
+def gen_spill(rng, tier):
+    """the 1 KiB spill buffer of onReadCallback: reads that end exactly at the end of the writable space of the receive buffer
+    (`f0`: the spill gets 0 bytes), one byte behind it, 1023 / 1024 bytes behind it (spill full), and asked for one more
+    (`f1025`: the kernel cannot return it, it is read by the next readv of the loop); the writable space is whatever the
+    buffer has at that moment (state-derived: leftover kept, everything consumed, shrunk), EINTR / EAGAIN / ECONNRESET
+    in the middle of the read loop"""
+    thr = rng.choice([0, 0, 1, 5000]); k = rng.choice([0, 7, 100000, 100000, 100000])
+    ops = ['init %d' % rng.choice([3, 1]), 'rcb %d %d -' % (thr, k), 'zcb -', 'recb -', 'en']
+    for _ in range(rng.choice([3, 5, 8])):
+        n = rng.choice([1, 100, 1023, 1024, 1025, 2048, 3000, 9000, 20000, 60000])
+        ops.append('feed g%d:%d' % (rng.randrange(256), n))
+        ans = ['f%d' % rng.choice([0, 0, 1, 1, 2, 1023, 1024, 1024, 1025])]
+        if rng.random() < 0.3: ans = ['c%d' % rng.choice([1, 64, 1024])] + ans
+        if rng.random() < 0.25: ans.append(rng.choice(['ei', 'ea', 'er']))
+        ops += ['kr ' + ' '.join(ans), 'rd']; _count('r-boundary')
+        r = rng.random()
+        if r < 0.15: ops.append('shr')
+        elif r < 0.3: ops.append('rcb %d %d -' % (rng.choice([0, 1, 5000]), rng.choice([0, 7, 100000])))
+        elif r < 0.4: ops += ['kr ei', 'rd', 'rd']
+    return ops + ['rcb 0 100000 -', 'rd', 'peof', 'rd', 'rd']
+
+
+def gen_same(rng, tier):
+    """state-derived inputs on ONE object: what a maintainer's 'unchanged? then skip' shortcut would compare with - the same
+    payload again (equal to what is queued / to what was just written / its prefix), the same threshold with a different
+    callback and the same callback with a different threshold, enable/disable twice, inbound bytes equal to the leftover
+    in the receive buffer, the same kernel answer twice"""
+    d, n = payload(rng, tier, small=rng.random() < 0.7)
+    if n > 5000: d, n = 'g7:5000', 5000
+    pre = d if d.startswith('g') or n < 2 else d[:2 * (n // 2)]
+    thr = rng.choice([0, 1, 3])
+    ops = ['init 3', 'rcb %d 1 -' % thr, 'rcb %d 2 s:01' % thr, 'rcb %d 2 s:01' % (thr + 1), 'scb -', 'scb -', 'zcb -', 'send ' + d, 'send ' + d, 'en', 'en']
+    a = rng.choice(['a1', 'ea', 'e4', 'c:e4', 's:e105', 'a0'])
+    ops += ['kw %s %s' % (a, a), 'wr', 'send ' + d, 'wr', 'send ' + pre, 'wr', 'wr', 'wr', 'wr', 'send ' + d, 'send ' + d]
+    inb = rbytes(rng, rng.choice([2, 3, 5]))
+    ops += ['feed ' + inb, 'rd', 'feed ' + inb, 'rd', 'feed ' + inb[2:] if len(inb) > 2 else 'feed 00', 'rd']
+    ops += ['dis', 'dis', 'send ' + d, 'en', 'en', 'wr', 'wr', 'rcb %d 2 s:01' % (thr + 1), 'feed ' + inb, 'rd']
+    return ops + flush(rng)
+
+
 def gen_close(rng, tier):
     """active close of a TcpConnection with bytes still in the kernel queue: every accept pattern in front of it, the
     peer application reading before / between / after at every pace, disconnect from the main flow or from inside the
@@ -344,6 +444,14 @@ def nscript(rng, allowed):
     return ','.join(acts)
 
 
+def ndelays(rng):
+    """setReconnectDelayCalcFunc of the bare connector: seconds after the 1st, 2nd, … failure (1 beyond the table)"""
+    if rng.random() < 0.1: return 'nkdelay -'
+    if rng.random() < 0.3:      # a delay function that calls stop() / cleanup() of its connector (patches/C06-11)
+        return 'nkdelayact %s %d %s' % (','.join(str(rng.choice([0, 1, 2, 3])) for _ in range(rng.choice([1, 2, 3]))), rng.choice([1, 1, 2, 2, 3]), rng.choice(['stop', 'stop', 'cleanup']))
+    return 'nkdelay ' + ','.join(str(rng.choice([0, 0, 1, 2, 2, 3, 5, 100, 2147483647])) for _ in range(rng.choice([1, 2, 3, 4])))
+
+
 def gen_net(rng, tier, flavour):
     """TcpServer / TcpClient / TcpConnector plumbing on a Unix-domain socket under virtual time.
     flavour 1: one client (+ raw peer), everything allowed; 2: two clients without auto-reconnect and without
@@ -373,11 +481,12 @@ def gen_net(rng, tier, flavour):
         if pre: ops += ['nsinit'] + (['nsstart'] if rng.random() < 0.7 else [])
         ops += ['nkinit %d' % tries, 'nkcb fail ' + rng.choice(['-', 'stop', 'stop', 'cleanup']), 'nkcb conn ' + rng.choice(['-', '-', 'stop', 'cleanup'])]
         if rng.random() < 0.3: ops.append('nfault %s %d' % (rng.choice(NFAULTS), rng.choice([1, 1, 2])))
+        if rng.random() < 0.5: ops.append(ndelays(rng))
         if rng.random() < 0.5: sv_cbs()
         for _ in range(rng.choice([4, 8, 14])):
             r = rng.random()
             if r < 0.25: ops.append('nkstart')
-            elif r < 0.5: ops.append('nadv %d' % rng.choice([1, 500, 999, 1000, 1000, 1001, 2000, 5000]))
+            elif r < 0.5: ops.append('nadv %d' % rng.choice([1, 500, 999, 1000, 1000, 1001, 2000, 2000, 3000, 5000, 100000]))
             elif r < 0.6: ops.append('nkstop')
             elif r < 0.65: ops.append('nkcleanup')
             elif r < 0.7: ops.append('nkinit %d' % rng.choice([0, 1, 2]))
@@ -386,8 +495,36 @@ def gen_net(rng, tier, flavour):
             elif r < 0.9: ops.append('nsstop')
             elif r < 0.93: ops.append('nscleanup')
             elif r < 0.96: ops.append('nfault %s %d' % (rng.choice(['socket', 'late', 'accept', 'again', 'abortkeep', 'refuse', 'abort']), rng.choice([1, 2, 3])))
-            else: ops.append('nkcb fail ' + rng.choice(['-', 'stop', 'cleanup']))
+            elif r < 0.98: ops.append('nkcb fail ' + rng.choice(['-', 'stop', 'cleanup']))
+            else: ops.append(ndelays(rng))
         return ops + ['nadv 1000', 'nkstop', 'nadv 1000', 'nscleanup']
+
+    if flavour == 4:
+        # reconnect: one client with auto-reconnect under a server that keeps going away; stop() / start() from the
+        # disconnected callback right after the auto-reconnect's start() (the connect is already made by the kernel, its
+        # write event not served yet), callbacks replaced while connected, tokens of earlier connections used again
+        ops += ['nsinit', 'nsstart', 'ncinit 0']
+        if rng.random() < 0.5: ops.append('nscb conn ' + rng.choice(['m:' + rbytes(rng, 2), '-', 'm:' + rbytes(rng, 1)]))
+        ops.append('nccb 0 disc ' + rng.choice(['stop', 'stop,start', 'stop,start,stop', 'start,stop', 'stop', '-', 's:' + rbytes(rng, 1) + ',stop']))
+        ops += ['nbudget %d' % rng.choice([2, 4, 8]), 'ncstart 0']
+        for _ in range(rng.choice([6, 10, 16, 24])):
+            r = rng.random()
+            if r < 0.16: ops.append('nsstop')
+            elif r < 0.32: ops.append('nsstart')
+            elif r < 0.40: ops.append('nsdisc %d' % tok())
+            elif r < 0.48: ops.append('ncstart 0')
+            elif r < 0.54: ops.append('ncstop 0')
+            elif r < 0.62: ops.append('ncsend 0 ' + rbytes(rng, rng.choice([1, 2, 9])))
+            elif r < 0.72: ops.append('nssend %d %s' % (tok(), rbytes(rng, rng.choice([1, 3]))))
+            elif r < 0.76: ops.append('nsvalid %d' % tok())
+            elif r < 0.80: ops.append('nsshut %d' % tok())
+            elif r < 0.86: ops.append('nccb 0 disc ' + rng.choice(['stop', 'stop,start', 'stop,start,stop', 'start,stop', '-', 'cleanup']))
+            elif r < 0.92: ops.append('nccb 0 %s %s' % (rng.choice(['recv', 'sc']), rng.choice(['-', 'm:' + rbytes(rng, 1), 'm:' + rbytes(rng, 2) + ',stop', 'stop,start'])))
+            elif r < 0.94: ops.append('ncrec 0 %d' % rng.randrange(2))
+            elif r < 0.96: ops.append('nbudget %d' % rng.choice([1, 3, 8]))
+            elif r < 0.98: ops.append('nadv %d' % rng.choice([999, 1000, 2000]))
+            else: ops += ['nccleanup 0', 'ncinit 0']
+        return ops + ['nsstop', 'nscleanup', 'nadv 1000', 'ncstop 0', 'nadv 1000']
 
     nclients = 2 if two else 1
     if two or rng.random() < 0.6:
@@ -437,7 +574,7 @@ def gen_net(rng, tier, flavour):
 def gen(rng, tier):
     n = 220 if tier == 'quick' else 1500
     # malformed stream: both sides must answer bad-op (unknown op, ill-typed operands, ops the object does not offer)
-    yield ['frob', 'send 0g', 'init 9', 'kw', 'kw a', 'kr c0', 'kr c1025', 'kr f3', 'rcb 1', 'rcb x 1 -', 'rcb 0 1 none', 'scb s:zz',
+    yield ['frob', 'send 0g', 'init 9', 'kw', 'kw a', 'kr c0', 'kr c1025', 'kr f1026', 'rcb 1', 'rcb x 1 -', 'rcb 0 1 none', 'scb s:zz',
            'disc', 'dcb -', 'scb disc', 'init 3', 'feed g0:70000', 'cinit', 'send g256:1', 'send g1:9999999', 'peof', 'feed 01']
     yield ['cinit', 'init 3', 'en', 'dis', 'zcb -', 'scb en', 'rcb 0 0 dis', 'cinit', 'disc', 'disc', 'send 01', 'rcb 0 0 -', 'rd', 'wr']
     # the §7-3 replay and its neighbours
@@ -467,7 +604,7 @@ def gen(rng, tier):
     for ln in ([4] if tier == 'quick' else [1, 2, 3, 4, 5, 6, 7]):
         data = ''.join('%02x' % (0x10 + i) for i in range(ln))
         for k in range(ln + 1):
-            for second in ('ea', 'a1', 'a0', 'er'):
+            for second in ('ea', 'a1', 'a0', 'er', 'e4', 's:e105', 'c:e4', 'c:e12'):
                 yield ['init 3', 'scb -', 'wecb -', 'en', 'kw a%d %s' % (k, second), 'send ' + data, 'wr', 'wr', 'send ' + data, 'wr', 'wr', 'wr', 'wr']
             yield ['init 3', 'scb -', 'send ' + data, 'en', 'kw a%d ea' % k, 'wr', 'wr', 'wr']
     if tier == 'thorough':
@@ -475,7 +612,7 @@ def gen(rng, tier):
             yield ['init 3', 'scb -', 'send g7:%d' % big, 'en', 'kw a1 ea a65536 a1000000', 'wr', 'wr', 'wr', 'wr', 'wr', 'wr', 'send g8:%d' % big, 'wr', 'wr']
         # exhaustive small scope: every placement of one fault in a 3-send run, before/after enable
         import itertools
-        for pre, a1, a2 in itertools.product([0, 1, 2], ['a0', 'a1', 'a2', 'a3', 'ea', 'er'], ['a0', 'a1', 'a5', 'ea', 'er']):
+        for pre, a1, a2 in itertools.product([0, 1, 2], ['a0', 'a1', 'a2', 'a3', 'ea', 'er', 'e4', 's:e4', 'c:e4', 's:e105'], ['a0', 'a1', 'a5', 'ea', 'er', 'e4', 'c:e12', 's:er']):
             ops = ['init 3', 'scb -', 'wecb -'] + ['send 0a0b'] * pre + ['en', 'kw %s %s' % (a1, a2)] + ['send 010203'] * (3 - pre)
             yield ops + ['wr'] * 6
     for _ in range(n):
@@ -486,6 +623,23 @@ def gen(rng, tier):
         yield gen_recv(rng, tier)
     for _ in range(n // 2):
         yield gen_rw(rng, tier)
+    # fault schedules per write site; the spill buffer boundary; state-derived inputs
+    yield ['init 3', 'scb -', 'wecb -', 'en', 'kw c:e4 s:a1', 'send 010203', 'wr', 'wr', 'wr']                  # EINTR in the write-ready callback: still armed
+    yield ['init 3', 'scb -', 'wecb -', 'en', 'kw c:a1 c:e32 c:e4 c:ea', 'send 010203', 'wr', 'wr', 'wr', 'wr', 'wr', 'wr']   # short, lasting error, transient, recovery
+    yield ['init 3', 'scb -', 'en', 'kw s:e105', 'send 0102', 'kw s:e12', 'send 03', 'wr', 'wr']                # ENOBUFS / ENOMEM in send(): queued, in order
+    yield ['cinit', 'dcb -', 'scb -', 'kw s:e4', 'send 0102', 'send 03', 'wr', 'wr', 'pread 9']                   # EINTR in send() on a TcpConnection
+    yield ['init 3', 'scb -', 'en', 'kw s:er', 'send 0102', 'send 03', 'wr', 'wr', 'kw s:e104 s:e5 s:e28', 'send 04', 'send 05', 'send 06', 'send 07', 'wr']   # lasting errors: refused, told
+    yield ['init 3', 'rcb 0 9 -', 'recb -', 'en', 'feed 07', 'kr ei', 'rd', 'rd', 'kr c1 ei', 'feed 0809', 'rd', 'rd']     # EINTR from readv: first call / mid-stream
+    yield ['cinit', 'dcb -', 'rcb 0 9 -', 'feed 07', 'kr ei', 'rd', 'send 01', 'rd', 'wr', 'pread 9']                      # ... on a TcpConnection: still connected
+    yield ['init 3', 'rcb 0 100000 -', 'en', 'feed g3:3000', 'kr f0', 'rd', 'feed g9:9000', 'kr f1024', 'rd', 'feed g1:9000', 'kr f1', 'rd', 'feed g2:20000', 'kr f1025', 'rd',
+           'feed g4:20000', 'kr f1023', 'rd', 'feed g5:60000', 'kr f0 ei', 'rd', 'rd']
+    yield ['malformed: faults', 'kw e11', 'kw e7', 'kw x:ea', 'kw s:', 'kw c:a', 'kw s:e', 'kr f1026', 'kr ej', 'kw s:ea c:e4 e105 s:a3 c:er']
+    for _ in range(n // 2):
+        yield gen_wfaults(rng, tier)
+    for _ in range(n // 3):
+        yield gen_spill(rng, tier)
+    for _ in range(n // 4):
+        yield gen_same(rng, tier)
     for _ in range(2 if tier == 'quick' else 12):
         yield [gen_e2e(rng, tier) for _ in range(3 if tier == 'quick' else 6)]
     # the kernel leg: active close with bytes still queued (interposed, AF_UNIX pair) ...
@@ -532,7 +686,42 @@ def gen(rng, tier):
     yield ['nsinit', 'nsstart', 'ncinit 0', 'ncstart 0', 'nsshut 0', 'ncstart 0', 'ncshut 0', 'nssend 0 01', 'nsshut 5']                   # half-close from either side
     yield ['nsinit', 'nsstart', 'ncinit 0', 'ncstart 0', 'nbudget 3', 'nccb 0 sc m:aa', 'nscb sc m:bb', 'ncsend 0 01', 'nssend 0 02']     # send-complete callbacks that send more
     yield ['nsinit', 'nsstart', 'ncinit 0', 'ncstart 0', 'nscb recv shut', 'ncsend 0 01', 'nccb 0 recv shut', 'nssend 0 02']
-    yield ['malformed: net', 'nfault foo 1', 'nfault socket 9', 'nbudget 9', 'nsshut 16', 'ncshut 2', 'nkcb fail shut', 'nscb sc s:01', 'nccb 0 recv s:01', 'nscb conn m:0g', 'nsinit x', 'nssend 16 00', 'nssend 0 0g', 'nscb foo -', 'nscb sc s:01', 'nccb 0 recv s:01', 'nccb 2 conn -', 'nkcb fail start', 'nkinit 6',
+    # the reconnect logic: a user delay table (zero, large, beyond the table, set while the timer runs, reset by cleanup) ...
+    yield ['nkinit 4', 'nkdelay 3,0,2', 'nkstart', 'nadv 2999', 'nadv 1', 'nadv 1999', 'nadv 1', 'nadv 1000']
+    yield ['nkinit 0', 'nkdelay 0,0,0,5', 'nkstart', 'nadv 4999', 'nadv 1', 'nadv 999', 'nadv 1', 'nkcleanup', 'nkinit 3', 'nkstart', 'nadv 999', 'nadv 1', 'nadv 1000']
+    yield ['nkinit 3', 'nkdelay 2147483647,100', 'nkstart', 'nadv 100000', 'nkstop', 'nkstart', 'nadv 100000', 'nkdelay 1', 'nkstop', 'nkstart', 'nadv 1000', 'nadv 1000']
+    yield ['nkinit 3', 'nkdelay 100,4000', 'nkstart', 'nadv 99999', 'nadv 1'] + ['nadv 100000'] * 39 + ['nadv 99999', 'nadv 1']      # long delays are not capped
+    yield ['nkinit 0', 'nkstart', 'nkdelay 5,5,5', 'nadv 1000', 'nadv 4999', 'nadv 1', 'nsinit', 'nsstart', 'nadv 5000', 'nkdelay 0', 'nkinit 2', 'nscleanup', 'nkstart']
+    yield ['nkinit 5', 'nkdelay 0,0,0,0', 'nkcb fail stop', 'nkstart', 'nkstart', 'nkdelay 0,2', 'nfault refuse 1', 'nsinit', 'nsstart', 'nkstart', 'nadv 2000']
+    # ... a delay function that calls stop() / cleanup() of its own connector, on each path a failure can come from (start(), a retry
+    # by timer, a late SO_ERROR, a zero-delay retry inside handleExpiredTimers): patches/C06-11
+    yield ['nkinit 0', 'nkdelayact - 2 stop', 'nkstart', 'nadv 1000', 'nadv 5000', 'nkstart', 'nadv 1000']
+    yield ['nkinit 0', 'nkdelayact 7 2 cleanup', 'nkstart', 'nadv 7000', 'nkinit 2', 'nkstart', 'nadv 1000']
+    yield ['nkinit 0', 'nkdelayact 2 1 stop', 'nkstart', 'nadv 5000', 'nkstart', 'nkdelay 2', 'nkstart', 'nadv 2000']
+    yield ['nsinit', 'nsstart', 'nfault late 1', 'nkinit 0', 'nkdelayact 2 1 stop', 'nkstart', 'nadv 3000', 'nkstart']
+    yield ['nkinit 3', 'nkdelayact 0,0 2 cleanup', 'nkstart', 'nkinit 1', 'nkstart', 'nkinit 4', 'nkdelayact 0,0,0 3 stop', 'nkstart', 'nkstart']
+    # ... stop() while Connecting with the connect already made by the kernel (AF_UNIX: at once) and the write event not served yet:
+    # from the disconnected callback right after the auto-reconnect's start(); no connected callback follows, the server sees the
+    # connection come and go, a later start() makes a fresh one
+    yield ['nsinit', 'nsstart', 'ncinit 0', 'nccb 0 disc stop,start', 'ncstart 0', 'nsstop', 'nsstart', 'nccb 0 disc stop,start,stop', 'nsstop', 'nsstart', 'ncstart 0',
+           'ncsend 0 01', 'ncstop 0', 'ncstart 0', 'ncsend 0 02']
+    yield ['nsinit', 'nsstart', 'nscb conn s:0102', 'ncinit 0', 'nccb 0 disc stop', 'ncstart 0', 'nsstop', 'nsstart', 'ncstart 0', 'nssend 3 aa', 'nssend 2 bb', 'nssend 1 cc', 'nsdisc 1']
+    yield ['nsinit', 'nsstart', 'ncinit 0', 'ncinit 1', 'ncrec 1 0', 'nccb 0 disc start,stop', 'ncstart 0', 'ncstart 1', 'nsstop', 'nsstart', 'ncstart 0', 'ncstart 1', 'ncsend 0 01', 'ncsend 1 02']
+    yield ['nsinit', 'ncinit 0', 'ncstart 0', 'ncstop 0', 'ncstart 0', 'ncsend 0 05', 'nsstart', 'ncstop 0', 'ncstart 0']     # connections given up in the backlog
+    # ... and the listener closed (cleanup() from the server's disconnected callback) with the new connection still in its backlog and
+    # the connector's write event not served yet: SO_ERROR says ECONNRESET, a failed attempt, no connected callback
+    yield ['nsinit', 'nsstart', 'nscb disc cleanup', 'ncinit 0', 'ncrec 0 0', 'nccb 0 sc stop,start', 'ncstart 0', 'ncsend 0 d4', 'nadv 1000', 'nsinit', 'nsstart', 'nadv 1000',
+           'ncsend 0 d5']
+    yield ['nsinit', 'nsstart', 'nscb disc cleanup,s:92', 'ncinit 0', 'nccb 0 conn stop,start', 'ncstart 0', 'nadv 1000', 'ncstop 0']
+    # ... tokens of earlier connections whose cabinet slot has been handed out again, ids across reconnects
+    yield ['nsinit', 'nsstart', 'ncinit 0', 'ncstart 0', 'ncstop 0', 'ncstart 0', 'nssend 0 aa', 'nsvalid 0', 'nsshut 0', 'nsdisc 0', 'nssend 1 bb', 'nsvalid 1',
+           'nsdisc 1', 'nssend 1 cc', 'nssend 2 dd', 'nssend 0 ee']
+    yield ['nsinit', 'nsstart', 'ncinit 0', 'ncinit 1', 'ncrec 0 0', 'ncrec 1 0', 'ncstart 0', 'ncstart 1', 'nsdisc 0', 'ncstart 0', 'nssend 0 aa', 'nssend 2 bb', 'nsdisc 1',
+           'ncstart 1', 'nssend 1 cc', 'nssend 3 dd', 'nsdisc 0', 'nsdisc 2']
+    # ... callbacks replaced while connected stay on the connection made after the reconnect
+    yield ['nsinit', 'nsstart', 'ncinit 0', 'ncstart 0', 'nbudget 4', 'nccb 0 recv m:0a', 'nssend 0 01', 'nccb 0 sc m:0b', 'ncsend 0 02', 'nsstop', 'nsstart', 'nssend 1 03',
+           'ncsend 0 04', 'nccb 0 recv -', 'nssend 1 05']
+    yield ['malformed: net', 'nkdelay', 'nkdelay x', 'nkdelay 1,2,3,4,5', 'nkdelay 2147483648', 'nkdelay 1,,2', 'nkdelay -1', 'nkdelayact - 0 stop', 'nkdelayact - 6 stop', 'nkdelayact - 1 start', 'nkdelayact 1,2,3,4,5 1 stop', 'nkdelayact 1 stop', 'nfault foo 1', 'nfault socket 9', 'nbudget 9', 'nsshut 16', 'ncshut 2', 'nkcb fail shut', 'nscb sc s:01', 'nccb 0 recv s:01', 'nscb conn m:0g', 'nsinit x', 'nssend 16 00', 'nssend 0 0g', 'nscb foo -', 'nscb sc s:01', 'nccb 0 recv s:01', 'nccb 2 conn -', 'nkcb fail start', 'nkinit 6',
            'nrsend 01', 'nrclose', 'nrsend -', 'nadv 100001', 'ncrec 0 2', 'nscb conn stop,stop,stop,stop', 'nzfoo']
     for _ in range(n // 2):
         yield gen_net(rng, tier, 1)
@@ -540,6 +729,8 @@ def gen(rng, tier):
         yield gen_net(rng, tier, 2)
     for _ in range(n // 4):
         yield gen_net(rng, tier, 3)
+    for _ in range(n // 4):
+        yield gen_net(rng, tier, 4)
 
 
 # `tcp … opu` ties the active close with unread inbound data AS CODED (model: end=reset).  The lead has recorded the deviation
@@ -594,14 +785,35 @@ def _sweep_sockets():
             except OSError: pass
 
 
+def _spill_hits():
+    """how the reads of a fixed sample of spill cases were split between the writable space of the receive buffer and the 1 KiB
+    spill buffer in the REAL run (the harness's `B spill=<bytes in the spill buffer>` lines; capacities are not in the model)"""
+    import hashlib, os, random, subprocess
+    rkey = '' if vlib.REPO == '/repo' else '_' + hashlib.sha1(vlib.REPO.encode()).hexdigest()[:8]
+    exe = os.path.join(vlib.CACHE, ID, 'harness_' + FLAVOUR + rkey)
+    rng = random.Random(20260930)
+    text = ''.join('case %d\n%s\n' % (i, '\n'.join(gen_spill(rng, 'quick'))) for i in range(60))
+    hits = {}
+    try:
+        out = subprocess.run([exe], input=text.encode(), stdout=subprocess.PIPE, stderr=subprocess.DEVNULL, timeout=120).stdout.decode()
+        for l in out.splitlines():
+            if l.startswith('B spill='): hits[l[2:]] = hits.get(l[2:], 0) + 1
+    except Exception as e:
+        hits['error'] = str(e)[:80]
+    return dict(sorted(hits.items()))
+
+
 def extra_coverage():
     _sweep_sockets()
-    return {'injected_faults': dict(sorted(FAULTS.items()))}
+    saved = dict(FAULTS)
+    spill = _spill_hits()
+    FAULTS.clear(); FAULTS.update(saved)
+    return {'injected_faults': dict(sorted(FAULTS.items())), 'spill_buffer_bytes_in_real_reads': spill}
 
 
 LEVEL_TEXT = ('Lean 4 theorems over a hand-written model of BufferedFd + TcpConnection with the kernel as an oracle: for every operation '
-              'list (API calls, callback scripts, kernel answer patterns, pass orders, peer writes/close) wire ++ sendQ = bytes accepted by '
-              'send in order, Running and queued implies write event armed, send-complete only with nothing outstanding, bytes read = bytes '
+              'list (API calls, callback scripts, kernel answer patterns incl. every errno at either write site, pass orders, peer writes/close) wire ++ sendQ = bytes accepted by '
+              'send in order (nothing is dropped), Running and queued implies write event armed, writable passes drain the queue through any finite fault schedule, send-complete only with nothing outstanding, bytes read = bytes '
               'fed in order with unconsumed bytes re-presented as a prefix, read-zero / disconnected at most once and only after every byte '
               'the peer wrote has been presented (any threshold); what write(2) accepted reaches the peer application complete and in order, then EOF, after an active '
               'close at send-complete (kernel-queue model, every peer pacing; counterexamples for SO_LINGER{on,0} and for unread inbound data); client-side callback '
